@@ -13,7 +13,13 @@ RULE = ("the real qmail-local main() (ASan+UBSan build of the working tree; fork
         "message of up to %s lines from a 12-line From_/>From_/>>From_/near-miss pool x 7 unterminated tails x 7 old-file shapes x senders x dates; entry sizes "
         "around 1024/2048/3072; every call index x the same fault kinds, plus lock failure followed by a write failure; 2 and 3 concurrent deliveries as threads "
         "with every schedule of open/flock/write/fsync/ftruncate/close enumerated depth-first (capped at %s per configuration) plus seeded random schedules, "
-        "with and without a failing write; %s seeded random single deliveries. gfrom(): every string over {>,F,r,o,m,space,LF,f} up to length %s; myctime(): "
+        "with and without a failing write; %s seeded random single deliveries (fault at any call of the run). Buffer boundaries, mbox AND maildir: the message length is "
+        "chosen so that the OUTPUT of the delivery (appended entry / maildir file; lead-in, >-quoting and last-line completion measured on a fault-free run of the "
+        "implementation, not computed) is exactly k*1024+d bytes, k = 1..%s, d = -3..3, three message styles (text, From_/>From_ lines + unterminated last line, NUL/8-bit), "
+        "and likewise MESSAGE length k*1024+d, d = -1..1; each with a failing call at EVERY call index of the delivery (open_append..close / the whole maildir child) x "
+        "{ENOSPC, short write, EINTR%s} plus short write followed by ENOSPC on the retry; and without assuming where the boundaries are: filler length over the full residue "
+        "range 0..1030 (%s) with ENOSPC%s and short write + ENOSPC at every write/fsync/close/link. corpus/C12.txt (first): entry = 1024(+1) and 2048(+1) bytes with the "
+        "flush forced by the final one-byte put failing, maildir file = 1024 bytes. gfrom(): every string over {>,F,r,o,m,space,LF,f} up to length %s; myctime(): "
         "about 4000 instants incl. leap days, century years, 2^31. The results of the program's own lseek calls (seek_end, pos = seek_cur) are traced and fed to the "
         "model, which requires them to be the current file length and to come after the lock. Every trace is replayed through the Lean acceptors Md.accept / Mb.sysStep (first rejected "
         "event = disagreement); the oracle is the maildir predicate on the concrete crash states and the mbox(5) reader mboxRead on the concrete final file. "
@@ -54,9 +60,10 @@ def mutate(dis, seed):
             for col in (f.get("collide", "0"), "0", "1", "2"):
                 cases.add("%s %s -" % (base, col))
                 for pr in (0, 1):
-                    for fc in range(1, 13):
+                    for fc in range(1, 20):
                         for fe in FERRS:
                             cases.add("%s %s %d:%d:%d" % (base, col, pr, fc, fe))
+                        cases.add("%s %s %d:%d:-1,%d:%d:28" % (base, col, pr, fc, pr, fc + 1))
         elif k in ("mb", "mc"):
             n = int(f.get("n", "1"))
             box = f.get("box", "-")
@@ -65,9 +72,10 @@ def mutate(dis, seed):
                 base = "mb %s %s %s %s %s" % (f.get("in", f.get("msg0", "-")), f.get("sender0", "-"), f.get("local", "-"), f.get("host", "-"), t)
                 for bx in (box, "-", "absent"):
                     cases.add("%s %s -" % (base, bx))
-                    for fc in range(1, 16):
+                    for fc in range(1, 26):
                         for fe in FERRS:
                             cases.add("%s %s 0:%d:%d" % (base, bx, fc, fe))
+                        cases.add("%s %s 0:%d:-1,0:%d:28" % (base, bx, fc, fc + 1))
             else:
                 f.setdefault("msg0", f.get("in", "-"))
                 tail = " ".join("%s %s" % (f.get("msg%d" % i, "-"), f.get("sender%d" % i, "-")) for i in range(n))
@@ -84,7 +92,8 @@ def mutate(dis, seed):
 
 run_standard("C12", "Nq.Props.C12", "drv_c12", "harness/c12_local.c", None, [],
              "2 300", "3 6000",
-             {"quick": RULE % (2, 250, 300, 6), "thorough": RULE % (3, 4000, 6000, 7)},
+             {"quick": RULE % (2, 250, 300, 4, "", "mbox: all; maildir: one third per seed, seeds 1-3 cover it", "", 6),
+              "thorough": RULE % (3, 4000, 6000, 6, ", EIO, alarm", "three bases, all", " / short write", 7)},
              "Md.accept / Mb.sysStep / gfrom / myctime / ufline, rpline, dtline (Nq/LocalDeliver.lean, Nq/Local.lean) vs the system-call traces and "
              "outputs of qmail-local.c maildir(), maildir_child(), mailfile(), main(), gfrom.c, myctime.c",
              builder=builder, mutate=mutate,
